@@ -112,7 +112,7 @@ func (r *recorder) project(x int) vh.M {
 		}
 	}
 	return vh.M{"k": o.k, "of": of, "r": rows, "c": cols, "fl": sp != r.base.sparse, "pt": et != typeOf(r.base.ti),
-		"pos": pos, "v": vals, "d": ders}
+		"pos": pos, "v": vals, "d": ders, "sp": sp}
 }
 
 func (r *recorder) obs() []vh.M {
